@@ -21,6 +21,9 @@
                The SQL text shows the key expression / the aggregate call in their place.
         ORD := a<pos> | d<pos>                  ascending / descending on output column <pos>
     ins t<k> r<n> E×(n·columns)
+    insx t<k> (nolist | l<m> c<i>×m) r<n> v<w> E×(n·w)     INSERT INTO t [(c<i>, …)] VALUES n rows of w values each; unlisted
+                                                            columns are NULL; a list with a duplicate or unknown column, or
+                                                            w ≠ m (w ≠ columns without a list), is a bind error
     upd t<k> s<m> (c<col> E)×m W
     del t<k> W
   E := n | i<dec> | b0 | b1 | t<hex> | c<k>                      literal / column k of the (joined) input row
@@ -38,7 +41,8 @@
           | "Rlist:" ROWS     LIMIT/OFFSET present: rows in answer order
           | "A"<n>            rows affected
           | "E"<class>        parse|bind|type|constraint|overflow|divzero|panic|eval|other
-          | "-"               not compared: a DML statement before this one failed (what it leaves behind is C03)
+          | "-"               not compared: a DML statement before this one failed while executing (what it leaves behind
+                              is C03); a statement rejected by the parser or binder (Eparse, Ebind) changes nothing
   ROWS as in DB; a double that is not integral is printed `f<bits>`.
 -/
 import AxVerif.Model.Bytes
@@ -436,6 +440,37 @@ def pStmt (db : Db) (ws : List String) : Option Stmt :=
       | some (es, []) => some (.insert t (chunks ncols n es))
       | _ => none
     | _, _ => none
+  | "insx" :: t :: l :: r =>
+    -- insx t<k> (nolist | l<m> c<i>×m) r<n> v<w> E×(n·w): INSERT with a column list and rows of w values; an
+    -- ill-formed statement (list or row width) becomes an INSERT of a row of the wrong arity: a bind error
+    match numAfter "t" t with
+    | none => none
+    | some t =>
+      let ncols := (db.getD t default).tys.length
+      let colsRest : Option (Option (List Nat) × List String) :=
+        if l == "nolist" then some (none, r)
+        else match numAfter "l" l with
+          | none => none
+          | some m => match allSome ((r.take m).map (numAfter "c")) with
+            | some cs => if cs.length == m then some (some cs, r.drop m) else none
+            | none => none
+      match colsRest with
+      | some (cols, n :: v :: r) =>
+        match numAfter "r" n, numAfter "v" v with
+        | some n, some w =>
+          if w == 0 then none else
+          match pExprs fuel (n * w) r with
+          | some (es, []) =>
+            let rows := chunks w n es
+            let full := match cols with
+              | none => some rows
+              | some cs => allSome (rows.map (expandCols ncols cs))
+            (match full with
+             | some rs => some (.insert t rs)
+             | none => some (.insert t [List.replicate (ncols + 1) (.lit .null)]))
+          | _ => none
+        | _, _ => none
+      | _ => none
   | "upd" :: t :: s :: r =>
     match numAfter "t" t, numAfter "s" s with
     | some t, some m =>
@@ -524,7 +559,9 @@ def isDml : Stmt → Bool
 def cutAfterFailedDml : List (Bool × String) → List String
   | [] => []
   | (dml, o) :: rest =>
-    if dml && o.startsWith "E" then o :: rest.map (fun _ => "-") else o :: cutAfterFailedDml rest
+    -- (a statement the parser or the binder rejects was never executed: the comparison goes on)
+    if dml && o.startsWith "E" && o != "Ebind" && o != "Eparse" then o :: rest.map (fun _ => "-")
+    else o :: cutAfterFailedDml rest
 
 /-- the engine places NULL as the largest value (ASC: last, DESC: first) -/
 def nullsFirstOfEngine : Bool := false
